@@ -136,7 +136,7 @@ func c11R2(c *Ctx, r *Report) {
 		for _, b := range duf.Blocks {
 			for _, in := range b.Instrs {
 				if call, ok := in.(*ssa.Call); ok {
-					if p, ok := call.Call.Value.(*ssa.Parameter); ok && p.Name() == "callback" {
+					if p, ok := call.Call.Value.(*ssa.Parameter); ok && namedOf(p.Type()) == "updateAndReturnDocCallback" {
 						ev := errValueOf(call)
 						_, neg := EdgesOnValue(duf, func(v ssa.Value) bool { return unwrapLoadFree(v) == ev })
 						gateEdges["callback(doc)"] = append(gateEdges["callback(doc)"], neg...)
